@@ -232,3 +232,50 @@ def dependency_model(ctx, rule):
                  key=f.qualname + "::dependency-model", input="x.rx.pipe(f, scale=p.param.scale); read; p.scale = 3; read -> stale")
     else:
         ctx.ok(rule, f, f.node, "the dependency list holds the parameters of the previous nodes, of the function, of the positional and of the keyword arguments")
+
+
+def value_setter_model(ctx, rule):
+    """reactive_ops.value (setter) interpreted abstractly on a root expression: what ends up in the wrapper is the
+    RESOLVED value -- for a container that is a rebuilt, private container (resolve_value rebuilds lists, tuples and
+    dicts), never the caller's own object: a caller that extends its list and assigns it again must be noticed
+    (the change test compares the stored object with the new one)."""
+    f = ctx.hier.property_setter("param.reactive.reactive_ops", "value")
+    if f is None:
+        raise AnalysisError("rx value-setter model: the setter of reactive_ops.value was not found")
+    problems, n = [], 0
+    for has_refs in (False, True):
+        given = Obj("callers_container")
+        rebuilt = Obj("rebuilt_private_container")
+        wrapper = Obj("wrapper", object=Obj("previous_object"))
+        root = Obj("root_rx", _wrapper=wrapper)
+        root.attrs["_root"] = root
+        me = Obj("ops", _reactive=root)
+
+        def hook(fn, args, kwargs):
+            if fn == "isinstance" and len(args) == 2:
+                return args[1] in ("rx", "<rx>") or (isinstance(args[1], str) and args[1].endswith("rx"))
+            if fn == "resolve_value":
+                return rebuilt if args and args[0] is given else Obj("resolved_something_else")
+            if fn == "resolve_ref":
+                return [Obj("dependency")] if has_refs else []
+            return NotImplemented
+        it = Interp(ctx.hier, call_hook=hook, globals={"Parameter": "Parameter", "rx": "rx"})
+        try:
+            outs = it.run_all(f, {f.params[0]: me, f.params[1]: given})
+        except Unsupported as e:
+            raise AnalysisError("rx value-setter model: absint cannot interpret the setter: %s" % e)
+        if len(outs) != 1 or outs[0].imprecise:
+            raise AnalysisError("rx value-setter model: the setter is not interpretable precisely (%s)" % (outs[0].notes[:2] if outs else "no outcome"))
+        n += 1
+        desc = "x.rx.value = <a container %s>" % ("holding a reference" if has_refs else "of plain values")
+        if outs[0].kind != "return":
+            problems.append("%s raises %s" % (desc, outs[0].value))
+        elif wrapper.attrs["object"] is given:
+            problems.append("%s stores the caller's own object: when the caller extends it and assigns it again, the change test sees the identical object and nothing is invalidated" % desc)
+        elif wrapper.attrs["object"] is not rebuilt:
+            problems.append("%s stores %r, specification: the resolved value of what was assigned" % (desc, wrapper.attrs["object"]))
+    ctx.abstract_cases += n
+    if problems:
+        ctx.fail(rule, f, f.node, "rx value-setter model: %s (%d disagreeing case(s))" % (problems[0], len(problems)), key=f.qualname + "::value-setter-model")
+    else:
+        ctx.ok(rule, f, f.node, "rx value-setter model: the root's wrapper receives the resolved (rebuilt) value, with and without references inside")
